@@ -46,7 +46,7 @@ def case_st(draw):
     case["use_minus1"] = False
     case["nboundary"] = draw(st.sampled_from([0, 0, 0, 2]))
     if case["ndim"] == 3:
-        case["levelmin"] = draw(st.sampled_from([1, 1, 2, 3, 3]))
+        case["levelmin"] = draw(st.sampled_from([1, 2, 3, 3]))
         case["levelmax"] = case["levelmin"] + draw(st.integers(2, 5) if case["levelmin"] < 3 else st.integers(1, 3))
         case["refine_p"] = draw(st.lists(st.sampled_from([0.05, 0.15, 0.3, 0.5] if case["levelmin"] < 3 else
                                                          [0.02, 0.05, 0.1, 0.3]), min_size=1, max_size=4))
@@ -227,6 +227,6 @@ def subs(ctx):
         Sub("curve", curve, cases=_curve_cases(thorough), shard=False),
         Sub("hilbert_diff", hilbert_diff, strategy=hilbert_pt_st, quick=400, thorough=3000),
         Sub("selective", selective, strategy=case_st(), quick=110, thorough=400,
-            required={"restricted_with_rows": 0.1, "box_le_leaf": 0.1, "touches_edge": 0.03}),
+            required={"restricted_with_rows": 0.06, "box_le_leaf": 0.1, "touches_edge": 0.03}),
         Sub("cpu_list", cpu_list, strategy=cpu_case_st(), quick=40, thorough=200),
     ]
